@@ -1121,6 +1121,10 @@ class Interp:
                 s2 = {k: v for k, v in s2.items() if not ((k[0] == fid and k[1] not in lv and k[1] not in always_live) or
                                                           (k[0] in ("w", "c") and k[1] == fid and k[2] not in lv and k[2] not in always_live))}
                 sg2 = exact_signature(s2, fid) if part and succ not in collapsed else None
+                if sg2 is None and succ not in collapsed and order.get(succ, 0) <= order.get(bi, 0):
+                    # back edge into a loop header: keep the states arriving over back edges apart from the entry state
+                    # (one level of loop peeling: the first evaluation of the loop test sees the initial values only)
+                    sg2 = ("back",)
                 slot = in_states.setdefault(succ, {})
                 if part and succ not in collapsed and sg2 not in slot and len(slot) >= MAX_PARTITIONS:
                     # too many partitions: collapse this block to one ordinary (joined, widened) state
